@@ -275,30 +275,40 @@ Definition pair_eqb (a b : N * val) : bool := andb (N.eqb (fst a) (fst b)) (val_
 
 Fixpoint count {A} (eqb : A -> A -> bool) (l : list A) (x : A) : nat :=
   match l with [] => 0 | y :: r => (if eqb y x then 1 else 0) + count eqb r x end.
-(* multiset equality *)
+(* multiset equality; the two list comparisons are fast paths (vm_compute is strict, hence [if]) *)
 Definition msetb {A} (eqb : A -> A -> bool) (a b : list A) : bool :=
-  forallb (fun x => count eqb a x =? count eqb b x) (a ++ b).
+  if list_eqb eqb a b then true
+  else if list_eqb eqb a (rev b) then true
+  else forallb (fun x => count eqb a x =? count eqb b x) (a ++ b).
 Fixpoint memb {A} (eqb : A -> A -> bool) (x : A) (l : list A) : bool :=
-  match l with [] => false | y :: r => orb (eqb y x) (memb eqb x r) end.
+  match l with [] => false | y :: r => if eqb y x then true else memb eqb x r end.
 
 (* observation for one key: valuesWithID, get, firstIndex.  [None] = the call panicked *)
 Record kobs := mkK { k_id : N; k_vals : option (list val); k_get : option (option val); k_first : option Z }.
-(* a checkpoint: ops executed since the previous checkpoint, then len, values(), per-key lookups *)
-Record ckpt := mkC { c_ops : list op; c_panic : bool; c_len : N; c_iter : option (list (N * val)); c_keys : list kobs }.
-Record case := mk { c_ckpts : list ckpt }.
+(* a checkpoint: ops executed since the previous checkpoint (in chunks), then len, values() (in
+   chunks), per-key lookups.  c_panic: one of the ops panicked. *)
+(* values(): not observed at this checkpoint / panicked / the entries (in chunks) *)
+Inductive iobs := ISkip | IPanic | IList (chunks : list (list (N * val))).
+Record ckpt := mkC { c_ops : list (list op); c_panic : bool; c_len : N;
+                     c_iter : iobs; c_keys : list kobs }.
+(* c_model = false: too big for the (unary-position) executable model; only the oracle judges it *)
+Record case := mk { c_model : bool; c_ckpts : list ckpt }.
 
-(* the property, per key, against the insertion log *)
+(* the property, per key, against the insertion log.  Codes:
+   2 lookup does not yield exactly the inserted entries   3 get is not one of them
+   4 first index is not the position of the first insertion (it moved)
+   5 iteration does not yield every entry once   6 panic   7 len wrong *)
 Definition key_ok (l : alog) (k : kobs) : nat :=
   match k_vals k, k_get k, k_first k with
   | Some vs, Some g, Some f =>
-      if negb (msetb val_eqb vs (vals_of l (k_id k))) then 2      (* lookup <> inserted entries *)
+      if negb (msetb val_eqb vs (vals_of l (k_id k))) then 2
       else if negb (match g with
                     | None => match vals_of l (k_id k) with [] => true | _ => false end
                     | Some v => memb val_eqb v (vals_of l (k_id k))
-                    end) then 3                                    (* get not one of them *)
-      else if negb (Z.eqb f (spec_first l (k_id k))) then 4        (* first index moved *)
+                    end) then 3
+      else if negb (Z.eqb f (spec_first l (k_id k))) then 4
       else 0
-  | _, _, _ => 6                                                   (* panic *)
+  | _, _, _ => 6
   end.
 
 Fixpoint first_bad {A} (f : A -> nat) (l : list A) : nat :=
@@ -306,25 +316,27 @@ Fixpoint first_bad {A} (f : A -> nat) (l : list A) : nat :=
 
 Definition ckpt_ok (l : alog) (c : ckpt) : nat :=
   if c_panic c then 6 else
+  if negb (N.eqb (c_len c) (N.of_nat (length l))) then 7 else
   match c_iter c with
-  | None => 6
-  | Some it =>
-      if negb (N.eqb (c_len c) (N.of_nat (length l))) then 7       (* len *)
-      else if negb (msetb pair_eqb it l) then 5                    (* iteration not each entry once *)
+  | IPanic => 6
+  | ISkip => first_bad (key_ok l) (c_keys c)
+  | IList it =>
+      if negb (msetb pair_eqb (concat it) l) then 5
       else first_bad (key_ok l) (c_keys c)
   end.
 
 Fixpoint ckpts_ok (l : alog) (cs : list ckpt) : nat :=
   match cs with
   | [] => 0
-  | c :: r => let l' := l ++ log_of (c_ops c) in
+  | c :: r => let l' := l ++ log_of (concat (c_ops c)) in
               match ckpt_ok l' c with O => ckpts_ok l' r | n => n end
   end.
 
 (* verified oracle *)
 Definition check_C56 (c : case) : bool := Nat.eqb (ckpts_ok [] (c_ckpts c)) 0.
 
-(* exact comparison with the model, run with a fixed (colliding) hash function *)
+(* exact comparison with the model, run with a fixed (heavily colliding) hash function; the
+   observables do not depend on the hash function (theorem C56_hash_independent) *)
 Definition mhash (id : N) : N := (id / 3)%N.
 
 Definition kobs_model (m : imap) (k : kobs) : bool :=
@@ -336,21 +348,42 @@ Fixpoint model_ok (m : option imap) (cs : list ckpt) : bool :=
   match cs with
   | [] => true
   | c :: r =>
-      let m' := obind m (fun m0 => run mhash m0 (c_ops c)) in
+      let m' := obind m (fun m0 => run mhash m0 (concat (c_ops c))) in
       match m' with
-      | None => andb (c_panic c) (model_ok m' r)
+      | None => if c_panic c then model_ok m' r else false
       | Some m1 =>
-          andb (negb (c_panic c))
-          (andb (N.eqb (c_len c) (N.of_nat (len m1)))
-          (andb (option_eqb (list_eqb pair_eqb) (c_iter c) (values m1))
-          (andb (forallb (kobs_model m1) (c_keys c)) (model_ok m' r))))
+          if c_panic c then false else
+          if negb (N.eqb (c_len c) (N.of_nat (len m1))) then false else
+          if negb (match c_iter c with
+                   | ISkip => true
+                   | IPanic => match values m1 with None => true | Some _ => false end
+                   | IList it => option_eqb (list_eqb pair_eqb) (Some (concat it)) (values m1)
+                   end) then false else
+          if negb (forallb (kobs_model m1) (c_keys c)) then false else model_ok m' r
       end
   end.
 
 Definition check_case (c : case) : nat :=
   match ckpts_ok [] (c_ckpts c) with
-  | O => if model_ok (Some empty) (c_ckpts c) then 0 else 1
+  | O => if c_model c then (if model_ok (Some empty) (c_ckpts c) then 0 else 1) else 0
   | n => n
+  end.
+
+(* the model's own observations, for the theorem "the model satisfies the oracle" *)
+Definition model_kobs (hash : N -> N) (m : imap) (id : N) : kobs :=
+  mkK id (valuesWithID hash m id) (get hash m id) (firstIndex hash m id).
+
+Fixpoint model_ckpts (hash : N -> N) (m : option imap) (script : list (list op * list N)) : list ckpt :=
+  match script with
+  | [] => []
+  | (ops, keys) :: r =>
+      let m' := obind m (fun m0 => run hash m0 ops) in
+      (match m' with
+       | None => mkC [ops] true 0 IPanic []
+       | Some m1 => mkC [ops] false (N.of_nat (len m1))
+                        (match values m1 with Some x => IList [x] | None => IPanic end)
+                        (map (model_kobs hash m1) keys)
+       end) :: model_ckpts hash m' r
   end.
 
 End C56m.
